@@ -47,6 +47,36 @@ def gen_forest(rng: random.Random, depth: int, width: int, keys: list[str], wide
 	return out
 
 
+SPARSE_PATTERNS = [(1, 10), (2, 20), (1, 11), (0, 10), (1, 12, 19), (2, 21), (1, 10, 11), (3, 13, 23), (0, -1), (1, -1), (10, 11), (1, 2, 10)]
+
+
+def sparse_slots(rng: random.Random) -> tuple[int, list[int]]:
+	"""(number of slots, the slots that carry children): index strings that are text prefixes of each other (`1` / `10`…`19`, `2` /
+	`20`…`29`) with only childless slots between them, so that their child groups are adjacent in the depth-sorted paths"""
+	pat = rng.choice(SPARSE_PATTERNS)
+	n = max(11, max(pat) + 1 + rng.randint(0, 2))
+	return n, sorted({p % n for p in pat})
+
+
+def gen_sparse_wide_forest(rng: random.Random, keys: list[str]) -> Forest:
+	"""a wide sibling list (11..26 slots) in which only a few slots carry children (SPARSE_PATTERNS); at the top or below one parent"""
+	n, carry = sparse_slots(rng)
+	level: Forest = []
+	for j in range(n):
+		kids: Forest = []
+		if j in carry:
+			kids = [(rng.choice(keys), []) for _ in range(rng.randint(1, 3))]
+			if rng.random() < 0.3:
+				kids[0] = (kids[0][0], [(rng.choice(keys), [])])
+		level.append((rng.choice(keys), kids))
+	r = rng.random()
+	if r < 0.5:
+		return level
+	if r < 0.8:
+		return [(rng.choice(keys), []), (rng.choice(keys), level)]
+	return [(rng.choice(keys), level), (rng.choice(keys), [(rng.choice(keys), [])])]
+
+
 def gen_twin_forest(rng: random.Random, keys: list[str], depth: int) -> Forest:
 	"""several top-level trees of the same shape whose inner nodes sit at the same own index under different parents, with different
 	numbers of children there: the groups `0.1.*`, `1.1.*`, … (and `0.1.0.*`, `1.1.0.*`, …) are adjacent in the depth-sorted paths"""
@@ -538,7 +568,7 @@ def stream_rebuild_stub(ctx: Ctx) -> Stream:
 		for k, e in entries.items():
 			db[k] = e
 			ents.append(f'{hx(k)}={hx(e.types.fullyname)}={forest_sexp(obs_forest(e.attrs))}')
-		f = gen_forest(rng, 1 + i % 5, 1 + i % 4, leaf_keys, wide=i % 7 == 0) if i % 5 else gen_twin_forest(rng, leaf_keys, 2 + i % 3)
+		f = gen_sparse_wide_forest(rng, leaf_keys) if i % 6 == 1 else gen_forest(rng, 1 + i % 5, 1 + i % 4, leaf_keys, wide=i % 7 == 0) if i % 5 else gen_twin_forest(rng, leaf_keys, 2 + i % 3)
 		data = py_flatten(f)
 		if kind == 'malformed':
 			data = mutate_flat(rng, data, keys)
@@ -673,7 +703,7 @@ def case_table_stub(rng: random.Random, i: int) -> tuple[dict[str, Any], list[st
 			e = origin.stack(var)  # type: ignore[arg-type]
 		else:
 			e = entries[rng.choice(keys)].to(var, origin)  # type: ignore[arg-type]
-		f = gen_forest(rng, 1 + i % 4, 3, keys, wide=i % 9 == 0) if rng.random() < 0.7 else []
+		f = (gen_sparse_wide_forest(rng, keys) if i % 4 == 1 and rng.random() < 0.5 else gen_forest(rng, 1 + i % 4, 3, keys, wide=i % 9 == 0)) if rng.random() < 0.7 else []
 		if f:
 			e.extends(*build_attrs(entries, f))
 		db[k] = e
@@ -896,7 +926,7 @@ def _stub_law_case(ctx: Ctx, rng: random.Random, traits: Any, i: int, res: Searc
 		res.cases += 1
 		entries, nodes = stub_classes(rng, traits, rng.randint(2, 9))
 		keys = list(entries)
-		f = gen_forest(rng, 1 + i % 5, 1 + i % 4, keys, wide=i % 5 == 0) if i % 6 else gen_twin_forest(rng, keys, 2 + i % 3)
+		f = gen_sparse_wide_forest(rng, keys) if i % 6 == 1 else gen_forest(rng, 1 + i % 5, 1 + i % 4, keys, wide=i % 5 == 0) if i % 6 else gen_twin_forest(rng, keys, 2 + i % 3)
 		seen.add(forest_sexp(f))
 		rep = {'forest': forest_sexp(f), 'keys': keys}
 		# (a) expand against the independent walk
@@ -974,7 +1004,7 @@ def _stub_law_case(ctx: Ctx, rng: random.Random, traits: Any, i: int, res: Searc
 			# (Loaded.viaOK), so shuffled tables use declare / stack only
 			kind = rng.choice(['declare', 'declare', 'stack', 'to'] if not shuffled else ['declare', 'stack'])
 			e = origin.declare(var) if kind == 'declare' else origin.stack(var) if kind == 'stack' else entries[rng.choice(keys)].to(var, origin)  # type: ignore[arg-type]
-			ff = gen_forest(rng, 1 + i % 4, 3, keys, wide=i % 8 == 0) if rng.random() < 0.7 else []
+			ff = (gen_sparse_wide_forest(rng, keys) if i % 8 == 4 and rng.random() < 0.5 else gen_forest(rng, 1 + i % 4, 3, keys, wide=i % 8 == 0)) if rng.random() < 0.7 else []
 			if ff:
 				e.extends(*build_attrs(entries, ff))
 			pending.append((k, e))
@@ -1294,6 +1324,27 @@ class ProgGen:
 		return sources, names[-1]
 
 
+def wide_program(rng: random.Random) -> tuple[dict[str, str], str]:
+	"""Symbols with 11 and more attribute slots of which only a few carry type arguments (SPARSE_PATTERNS): functions and methods with
+	many parameters (slot = parameter index, the return type is the last slot; `self` is slot 0 of a method) and long tuples. The
+	index strings of the argument-carrying slots are text prefixes of each other (`1` / `10`, `2` / `20`) with plain slots between."""
+	tag = 'abcdefghij'[rng.randrange(10)].upper()
+	generic = lambda: rng.choice(['list[int]', f'dict[str, Conf{tag}]', 'dict[str, list[int]]', f'list[Conf{tag}]', 'tuple[int, str]', f'Box{tag}[str]', 'list[str] | None'])  # noqa: E731
+	plain = lambda: rng.choice(['int', 'str', 'bool', 'float', f'Conf{tag}'])  # noqa: E731
+	lines = ['from typing import Generic, TypeVar', f"T{tag} = TypeVar('T{tag}')", f'class Conf{tag}: ...', f'class Box{tag}(Generic[T{tag}]):', f'\tdef get(self) -> T{tag}: ...']
+	for j in range(rng.randint(2, 3)):
+		n, carry = sparse_slots(rng)
+		slots = [generic() if k in carry else plain() for k in range(n)]
+		kind = rng.choice(['function', 'function', 'method', 'tuple'])
+		if kind == 'function':
+			lines.append(f"def wide{tag}{j}({', '.join(f'p{k}: {t}' for k, t in enumerate(slots[:-1]))}) -> {slots[-1]}: ...")
+		elif kind == 'method':
+			lines += [f'class Owner{tag}{j}:', f"\tdef wide(self, {', '.join(f'p{k}: {t}' for k, t in enumerate(slots[1:-1], 1))}) -> {slots[-1]}: ..."]
+		else:
+			lines += [f"def tup{tag}{j}(t: tuple[{', '.join(slots)}], u: list[int]) -> None:", '\tv = t', '\tw = u']
+	return {'genmod_w': '\n'.join(lines) + '\n'}, 'genmod_w'
+
+
 def chain_program(rng: random.Random, depth: int) -> tuple[dict[str, str], str]:
 	"""A reference CHAIN through table entries, `depth` generic classes long: a referrer mentions generic class 0 WITH type arguments
 	(so the use site does not show what the class entry refers to); the own entry of a generic class mentions an alias through a base
@@ -1531,6 +1582,11 @@ def load_programs(ctx: Ctx, stream: str, n_generated: int, real_modules: list[st
 	for i in range(max(8, n_generated // 5)):
 		srcs, entry = chain_program(crng, 2 + i % 3)
 		todo.append(('chain', f'chain#{i}', srcs, entry))
+	# wide symbols (11+ attribute slots) with few argument-carrying slots whose index strings are text prefixes of each other
+	wrng = ctx.sub_rng(stream + ':wide')
+	for i in range(max(6, n_generated // 8)):
+		srcs, entry = wide_program(wrng)
+		todo.append(('wide', f'wide#{i}', srcs, entry))
 	for kind, name, srcs, entry in todo:
 		try:
 			with time_limit(LOAD_BUDGET):
@@ -2025,6 +2081,8 @@ STATEMENTS = {
 	'C14.state_is_modelled': 'GENERATED from the AST of db.py / serializer.py on every run: SymbolDB has exactly __paths, __items, __completed; __paths and __items are written by the same methods; only __setitem__, on_complete, unload, import_json write fields; _order_keys_recursive changes only its two out-parameters; the serializer writes no field and changes no argument in place (a memo / cache / consumed argument breaks the translator or this theorem)',
 	'C14.row_schema_generated': "GENERATED from the AST of serializer.py / sequence.py on every run: serialize writes the class tag and exactly the fields of the model's two row shapes, deserialize reads exactly those back, each value is the expression the model cites (DSNs, origin = types.fullyname, via = via.types.fullyname, attrs over seqs.expand), the class test, the via choice, the depth sort key and the flattening guard are the ones modelled (a row key added / dropped / renamed, another sort key or guard breaks the translator or this theorem)",
 	'C14.order_guards_generated': 'GENERATED from the AST of db.py on every run: the tests of _order_keys / _order_keys_recursive (module filter, the cycle guard `key in self.__items and key not in resolving` = membership in the set of keys under expansion, the final `key not in orders`), the writes to resolving / orders, the recursive calls and the two loops are the ones the model orderNode / entryFirst implements (C14.order and C14.order_fuel are theorems about exactly this walk)',
+	'C14.groups_by_parent_path': 'the grouping scan of _deserialize_attrs is the scan whose "same group" test is equality of the parent INDEX PATHS (own_path != next_own_path on the joined components)',
+	'C14.text_prefix_grouping_counterexample': 'index strings compared as text are another function: parent "1" is a text prefix of "10.0", so with eleven slots of which slots 1 and 10 carry type arguments the two child groups merge (slot 1 gets the arguments of slot 10, slot 10 none), while the modelled scan restores the forest (regression of a seeded mutation; flatten_order is the positive statement)',
 	'C14.export_paths_canonical': 'every key of an exported attrs dict is a non-empty path whose dotted spelling consists of canonical decimals and decodes to the path',
 	'C14.canonical_roundtrip': 'on canonical decimals (ASCII digits, no sign, no leading zero) int and str are inverse',
 	'C14.import_frame': 'import_json changes no entry under a key it is not given a row for (entries of the other modules) and removes none',
